@@ -105,6 +105,7 @@ func (Engine) Shrink(plan interface{}, try func(interface{}) bool) interface{} {
 			func(p *Plan) bool { ok := p.FreshAt > 0; p.FreshAt = 0; return ok },
 			func(p *Plan) bool { ok := p.Cold; p.Cold = false; return ok },
 			func(p *Plan) bool { ok := p.Young; p.Young = false; return ok },
+			func(p *Plan) bool { ok := p.Bystander > 0; p.Bystander = 0; return ok },
 			func(p *Plan) bool { ok := p.Cfg.PYields; p.Cfg.PYields = false; return ok },
 			func(p *Plan) bool { ok := p.Cfg.StallTask >= 0; p.Cfg.StallTask = -1; return ok },
 			func(p *Plan) bool {
